@@ -74,7 +74,8 @@ class Scheduler:
         self.back = _rt.Semaphore(0)
         self.clock = 1000.0
         self.chooser = chooser or FirstChooser()
-        self.trace: list[tuple] = []       # (thread name, label)
+        self.trace: list[tuple] = []       # (thread name, label) per scheduling step / clock advance
+        self.timeline: list[tuple] = []    # trace entries and log entries (name, "@log", ...) in one sequence
         self.events: list[tuple] = []      # program-level log (sched.log)
         self.current: TState | None = None
         self.killed = False
@@ -130,7 +131,7 @@ class Scheduler:
         t = self.me()
         name = t.name if t else "main"
         self.events.append((name,) + ev)
-        self.trace.append((name, "@log") + ev)
+        self.timeline.append((name, "@log") + ev)
 
     # ---- spawning
     def spawn(self, name, fn, role="client"):
@@ -181,6 +182,7 @@ class Scheduler:
                     if timers:
                         self.clock = min(timers)
                         self.trace.append(("<clock>", f"advance to {self.clock - 1000.0:.3f}"))
+                        self.timeline.append(self.trace[-1])
                         continue
                     blocked = [(t.name, t.label) for t in self.threads if not t.done and t.started]
                     self.deadlock = Deadlock(blocked)
@@ -195,11 +197,13 @@ class Scheduler:
                     self.clock = min(timers)
                     self.choices.append((opts, "<tick>"))
                     self.trace.append(("<clock>", f"advance to {self.clock - 1000.0:.3f}"))
+                    self.timeline.append(self.trace[-1])
                     continue
                 self.choices.append((opts, pick.name))
                 self.steps += 1
                 pick.steps += 1
                 self.trace.append((pick.name, pick.label))
+                self.timeline.append(self.trace[-1])
                 self.current = pick
                 pick.go.release()
                 self.back.acquire()
